@@ -3558,6 +3558,9 @@ class SetInstance(object):
             except:
                 for undo_func in reversed(undo_funcs): undo_func()
                 raise
+        # a symmetric collection that gets its own owner as an item: reverse_add() above has put it into this very collection
+        # already, with all the bookkeeping (count, added, removed) - only what is not in setdata yet is handled here
+        new_items -= setdata
         setdata |= new_items
         if setdata.count is not None: setdata.count += len(new_items)
         added = setdata.added
